@@ -7,6 +7,7 @@ import (
 	"go/constant"
 	"go/token"
 	"go/types"
+	"os"
 	"sort"
 	"strings"
 
@@ -67,6 +68,9 @@ func (m *Model) RunLoop(s *Sink, rule string) {
 			}
 			s.Obls = append(s.Obls, sub.Obls...)
 		default:
+			if os.Getenv("TWDEBUG") != "" {
+				fmt.Fprintf(os.Stderr, "loop cases undecided (%s): %s\n", what, cr.why)
+			}
 			s.Note(rule, what+" by cases", cr.pos, "case evaluation not possible (%s); structural reading only", cr.why)
 			s.Obls = append(s.Obls, sub.Obls...)
 		}
